@@ -10,6 +10,14 @@ real builders for every container type and both calculate_eq_probs settings.
 mle: relational -- outputs of the real builder are recorded as scaled integers
 and validated by TLC against specs/msm/MLE.tla (see props/c12.py); the
 container clauses are checked here.
+
+large matrices (size-dependent code paths): specs/msm/BuildersLarge.tla runs the
+same builder steps on families of structured count matrices of any size
+(birth-death, chorded ring, star, directed ring, Kronecker product) whose
+results have closed forms in small integers; TLC checks the closed forms for
+the very sizes that are replayed -- 999, 1000, 1001, 1500, i.e. both sides of
+the `T.shape[0] < 1000` switch from LAPACK to ARPACK in eigenspectrum() -- and
+emits them in sparse-row form.
 """
 import os
 
@@ -27,6 +35,33 @@ SCOPES = {"quick": [dict(N=2, MaxC=3), dict(N=3, MaxC=1)],
 
 
 DTYPES = ["int64", "float64", "float32", "int32"]
+
+
+# ---- large structured families (BuildersLarge.tla) ---------------------------------------------------------
+LINVS = ["SupportsOK", "SupportsComplete", "Irreducible", "NotUniform", "RowStochastic",
+         "NormalizeIsCountsOverRowsum", "PriorFirst", "PiIsDistribution", "PiDivisible", "Stationary",
+         "StationaryDense", "DetailedBalance", "RingNotReversible", "SymmetrisedCounts", "ContainerRule", "Safe"]
+FAMILIES = ["bd", "chord", "hub", "ring", "prod"]
+NPATS = 3
+# eigenspectrum(): `if T.shape[0] < 1000 and issparse(T): T = T.toarray()` -- the only size threshold in
+# eigenspectrum / eq_probs / builders; sparse input with >= 1000 states goes to ARPACK, everything else to LAPACK
+LARGE_SIZES = [999, 1000, 1001, 1500]
+SMALL_CHECK = {"quick": list(range(2, 17)), "thorough": list(range(2, 41))}   # exhaustive + full-sum cross-check
+SMALL_REPLAY = [5, 12, 40]
+MLE_MAX_N = 12          # builders.mle on the reversible families (its answer is normalize's there); the pure-Python
+                        # Prinz iteration needs 3 s per sweep at n = 1000 and has no iteration budget in its
+                        # public signature (measured: n = 30: 5 s, n = 60: 63 s, n = 120: 13 min), and it has no
+                        # size-dependent branch, so it is not replayed at the large sizes
+# ARPACK (scipy.sparse.linalg.eigs, k=3, which="LR") does not converge on the directed-ring family, whatever the
+# tolerance: builders.normalize(<sparse ring, n >= 1000>, calculate_eq_probs=True) raises ArpackNoConvergence
+# after 100001 restarts (~60 s), while the same counts as ndarray, or with 999 states, give the closed form to
+# 1e-12.  The chain mixes in O(n^2) steps and its sub-dominant eigenvalues are complex and within 1e-5 of 1: a
+# limit of the iterative solver on a pathological chain rather than a wrong answer, reported to the lead; the
+# sub-check (ring x sparse container x n >= 1000 x calculate_eq_probs=True) stays off so that the check does not
+# spend minutes to end in a known exception.  Non-reversible chains reach ARPACK through the "prod" family.
+RING_ARPACK = False
+SLOW_MIXING = ("bd", "ring")     # spectral gap ~ 1/n^2: the leading eigenvector is known to ~1e-9 only (measured
+                                 # 1e-10 .. 1e-8 depending on ARPACK's start vector) -> compared at 1e-6, not 1e-7
 
 
 def make(container, C, dtype="int64"):
@@ -127,10 +162,250 @@ def replay_case(arg):
     return bad
 
 
+# ---------------------------------------------------------------------------------------------------------
+# large structured families: projection of the emitted sparse rows, replay
+
+_LARGE = []        # emitted cases; filled before the worker pool forks, workers index into it
+
+
+def _rows(rows):
+    """sparse rows as emitted by ToJson: per row an object {column: value} (or a list when the support is 1..k)
+    -> 0-based row index, column index, list of values"""
+    ii, jj, vv = [], [], []
+    for i, row in enumerate(rows):
+        items = row.items() if isinstance(row, dict) else enumerate(row, 1)
+        for j, v in items:
+            ii.append(i)
+            jj.append(int(j) - 1)
+            vv.append(v)
+    return np.array(ii), np.array(jj), vv
+
+
+def _expect(c):
+    """emitted case -> dense numpy expectations (projection only: fill, num / den)"""
+    n = c["n"]
+    i, j, v = _rows(c["C"])
+    C = np.zeros((n, n), dtype=np.int64)
+    C[i, j] = v
+    i, j, v = _rows(c["W"])
+    W = np.full((n, n), float(c["bg"]))
+    W[i, j] += np.array(v, dtype=float)
+    if c["half"]:
+        W = W / 2
+    T = np.repeat(np.array([b[0] / b[1] for b in c["Tbg"]])[:, None], n, axis=1)
+    i, j, v = _rows(c["T"])
+    T[i, j] = [t[0] / t[1] for t in v]
+    pi = np.array([q[0] / q[1] for q in c["pi"]]) if c["pi"][0][1] > 0 else None
+    return C, W, T, pi
+
+
+def internals(M):
+    """copies of the arrays a sparse matrix is made of (the caller's matrix has to keep them, not only its value)"""
+    import scipy.sparse as sp
+    if not sp.issparse(M):
+        return []
+    if M.format == "dok":
+        return [("items", sorted((tuple(int(x) for x in k), float(v)) for k, v in M.items()))]
+    out = []
+    for a in ("data", "indices", "indptr", "row", "col", "offsets", "rows"):
+        x = getattr(M, a, None)
+        if isinstance(x, np.ndarray):
+            out.append((a, [list(r) for r in x] if x.dtype == object else x.copy()))
+    return out
+
+
+def same_internals(a, b):
+    if len(a) != len(b):
+        return False
+    for (na, xa), (nb, xb) in zip(a, b):
+        if na != nb:
+            return False
+        if isinstance(xa, list):
+            if xa != xb:
+                return False
+        elif xa.dtype != xb.dtype or xa.shape != xb.shape or not np.array_equal(xa, xb):
+            return False
+    return True
+
+
+def large_combos(k, c):
+    """(container, element type, calculate_eq_probs, builder) calls replayed for emitted case number k"""
+    n, fam, builder, prior = c["n"], c["fam"], c["builder"], c["prior"]
+    fast = fam not in SLOW_MIXING
+    out = []
+    for ci, cont in enumerate(["ndarray"] + FORMATS):
+        dts = ["int64"]
+        if cont in ("ndarray", "csr") or (ci + k) % 3 == 0 or n <= 40:
+            dts.append(DTYPES[1 + (ci + k) % 3])
+        for dt in dts:
+            if builder == "transpose":
+                flags = [True, False] if dt == "int64" else [True]
+            elif prior:                      # no closed form for the stationary vector of C + prior
+                flags = [False]
+            else:
+                flags = [False] if dt == "int64" else []
+                if dt == "float32" and not fast:
+                    eig = False              # single-precision row weights x slow mixing: pi only to ~1e-4
+                elif n <= 40:
+                    eig = True
+                elif cont == "ndarray":      # LAPACK, 1 .. 4 s each at these sizes
+                    eig = dt == "int64"
+                elif n < 1000:               # sparse, densified by eigenspectrum: LAPACK again
+                    eig = (ci + k) % 3 == 0 and dt == "int64"
+                elif fam == "ring":
+                    eig = RING_ARPACK
+                elif fam == "bd":            # ARPACK needs 0.5 .. 2 s on the slowly mixing chain
+                    eig = (ci + k) % 3 == 0 and dt == "int64"
+                else:
+                    eig = True
+                if eig:
+                    flags.append(True)
+            for flag in flags:
+                out.append((k, cont, dt, flag, builder))
+    if c["mle_same"] and n <= MLE_MAX_N:
+        for ci, cont in enumerate(["ndarray"] + FORMATS):
+            out.append((k, cont, ("int64", "float64", "int32")[(ci + k) % 3], ci % 2 == 0, "mle"))
+    return out
+
+
+def replay_large(arg):
+    k, cont, dt, flag, bname = arg
+    import warnings
+    from enspara.msm import builders
+    c = _LARGE[k]
+    n, fam = c["n"], c["fam"]
+    C, W, T, pi = _expect(c)
+    prior = None if c["prior"] == 0 else c["prior"]
+    where = {"n": n, "family": fam, "pattern": c["pat"], "builder": bname, "prior_counts": prior, "container": cont,
+             "dtype": dt, "calculate_eq_probs": flag}
+    size = "n>=1000" if n >= 1000 else "n<1000"
+    kind = "dense" if cont == "ndarray" else "sparse"
+    pre = "large/%s/" % bname
+    bad = []
+    M = make(cont, C, dt)
+    before, ibefore, btype = dense(M).copy(), internals(M), type(M)
+    if bname == "mle":
+        t_rtol, t_atol, p_rtol = 1e-5, 1e-8, 1e-5            # the iteration stops on a log-likelihood change of 1e-10
+    else:
+        t_rtol, t_atol = (1e-9 if dt != "float32" else 3e-6), 1e-15
+        p_rtol = (1e-6 if fam in SLOW_MIXING else 1e-7) if dt != "float32" else 3e-5
+    try:
+        with warnings.catch_warnings():
+            warnings.simplefilter("ignore")
+            Cout, Tout, eq = getattr(builders, bname)(M, prior_counts=prior, calculate_eq_probs=flag)
+    except Exception as ex:
+        return [(pre + "%s/%s/raises-%s" % (kind, size, type(ex).__name__),
+                 dict(where, error="%s: %s" % (type(ex).__name__, str(ex)[:300])))]
+
+    def worst(got, exp):
+        d = np.abs(got - exp)
+        a = np.unravel_index(int(np.argmax(d)), d.shape)
+        return {"at": [int(x) for x in a], "got": float(got[a]), "expected": float(exp[a]),
+                "mismatches": int((d > 1e-6 * np.abs(exp) + 1e-12).sum())}
+    if type(M) is not btype or M.dtype != np.dtype(dt) or not np.array_equal(dense(M), before) \
+            or not same_internals(internals(M), ibefore):
+        bad.append((pre + "caller-modified", dict(where, value_changed=not np.array_equal(dense(M), before),
+                                                   internals_changed=not same_internals(internals(M), ibefore))))
+    allowed = {btype} if prior is None or cont == "ndarray" else {btype, np.ndarray}
+    if type(Tout) not in allowed or type(Cout) not in allowed:
+        bad.append((pre + "container", dict(where, got=[type(Cout).__name__, type(Tout).__name__],
+                                             allowed=[t.__name__ for t in allowed])))
+    Wexp = W if bname != "mle" else C.astype(float)
+    if dense(Cout).shape != (n, n) or not np.allclose(dense(Cout), Wexp, rtol=1e-12, atol=0):
+        bad.append((pre + "counts", dict(where, **(worst(dense(Cout), Wexp) if dense(Cout).shape == (n, n) else {}))))
+    if dense(Tout).shape != (n, n) or not np.allclose(dense(Tout), T, rtol=t_rtol, atol=t_atol):
+        bad.append((pre + "tprobs/" + size, dict(where, **(worst(dense(Tout), T) if dense(Tout).shape == (n, n) else {}))))
+    if not flag:
+        if eq is not None:
+            bad.append((pre + "eq-not-suppressed", dict(where, got=str(eq)[:200])))
+    else:
+        e = np.asarray(eq)
+        if e.shape != (n,):
+            bad.append((pre + "eq-shape", dict(where, got=str(e.shape))))
+        elif pi is not None and not np.allclose(e, pi, rtol=p_rtol, atol=1e-13):
+            bad.append((pre + "eq-probs/%s/%s" % (kind, size),
+                        dict(where, uniform=bool(np.allclose(e, 1.0 / n, rtol=1e-6)), **worst(e.astype(float), pi))))
+    return bad
+
+
+def large_jobs(ctx, d):
+    """TLC jobs on BuildersLarge.tla: (i) every size 2..16 (40), every family / pattern / container tag, with the
+    full-sum cross-checks; (ii) the large sizes, one job per size; (iii) the emitters"""
+    lit = lambda xs: "{" + ", ".join(str(x) for x in xs) + "}"
+    fams = "{" + ", ".join('"%s"' % f for f in FAMILIES) + "}"
+    allp = list(range(1, NPATS + 1))
+    jobs, emit = [], []
+
+    def job(name, sizes, pats, tags, emitting, **kw):
+        consts = dict(Sizes=lit(sizes), Families=fams, PatIds=lit(pats), Tags=tags, DenseMax="40",
+                      Emit="TRUE" if emitting else "FALSE")
+        if emitting:
+            cfg = core.write_cfg(os.path.join(d, name + ".cfg"), constants=consts, invariants=["EmitInv"])
+        else:
+            cfg = core.write_cfg(os.path.join(d, name + ".cfg"), constants=consts, invariants=LINVS,
+                                 properties=["CallerUnchanged"])
+        jobs.append(dict(module="BuildersLarge", cfg=os.path.basename(cfg), cwd=d,
+                         label="large families %s n=%s patterns %s" % ("emit" if emitting else "check", lit(sizes)
+                                                                     if len(sizes) < 6 else "%d..%d" % (sizes[0], sizes[-1]),
+                                                                     lit(pats)), timeout=1500, **kw))
+        if emitting:
+            emit.append(len(jobs) - 1)
+    both = '{"dense", "sparse"}'
+    job("ls", SMALL_CHECK[ctx.tier], allp, both, False, coverage=True, workers=4)
+    job("les", SMALL_REPLAY, [1 + ctx.seed % NPATS, 1 + (ctx.seed + 1) % NPATS] if ctx.tier == "quick" else allp,
+        '{"sparse"}', True, workers=1)
+    for q, n in enumerate(LARGE_SIZES):
+        # quick: one pattern per size (rotating with the seed), thorough: all of them
+        pats = [1 + (q + ctx.seed) % NPATS] if ctx.tier == "quick" else allp
+        job("lc%d" % n, [n], pats, '{"sparse"}', False, workers=3)
+        job("le%d" % n, [n], pats, '{"sparse"}', True, workers=1)
+    return jobs, emit
+
+
+def large_replay(ctx, results):
+    """replay of the emitted closed forms into the real builders"""
+    global _LARGE
+    seen, cases = set(), []
+    for r in results:
+        for t, p in r.prints:
+            if t != "CASE":
+                continue
+            key = (p["n"], p["fam"], p["pat"], p["builder"], p["prior"])
+            # the scalar prior densifies every container: one size on each side of the threshold is enough
+            if key in seen or (p["prior"] and p["n"] > 1000):
+                continue
+            seen.add(key)
+            cases.append(p)
+    if len({c["n"] for c in cases}) < len(LARGE_SIZES) + len(SMALL_REPLAY):
+        raise core.MachineryError("large families: cases for sizes %s only" % sorted({c["n"] for c in cases}))
+    _LARGE = cases
+    tasks = [t for k, c in enumerate(cases) for t in large_combos(k, c)]
+    # the costly calls (dense eigen-decompositions at n ~ 1000 .. 1500) first, so that the pool stays busy
+    tasks.sort(key=lambda t: -(cases[t[0]]["n"] * (3 if t[3] and t[4] == "normalize" else 1)))
+    out = core.pmap(replay_large, tasks, chunk=1)
+    per = {}
+    for t, bad in zip(tasks, out):
+        per.setdefault(t[0], []).extend(bad)
+    arpack = sum(1 for t in tasks if t[3] and t[4] == "normalize" and t[1] != "ndarray" and cases[t[0]]["n"] >= 1000
+                 and not cases[t[0]]["prior"])
+    for k, c in enumerate(cases):
+        ident = {x: c[x] for x in ("n", "fam", "pat", "builder", "prior")}
+        ctx.case(("large",) + tuple(ident.values()), sample=None)
+        ctx.traces += 1
+        for key, detail in per.get(k, []):
+            ctx.violation({"kind": "replay-large", "case": ident, "detail": detail,
+                           "regenerate": "BuildersLarge.tla with Sizes={%d} Families={\"%s\"} PatIds={%d}, EmitInv"
+                                         % (c["n"], c["fam"], c["pat"]),
+                           "how": "builders.%s vs BuildersLarge.tla" % detail.get("builder", c["builder"])}, key=key)
+    ctx.notes["large_families"] = {"sizes": sorted({c["n"] for c in cases}), "cases": len(cases), "calls": len(tasks),
+                                   "calls_reaching_arpack": arpack, "ring_arpack_subcheck": RING_ARPACK}
+
+
 def run(ctx):
     ctx.rule = ("TLC enumerates every count matrix with entries 0..MaxC and all row sums > 0 x builder x prior; "
                 "non-trivial = strongly connected and not symmetric; distinct by (C, builder, prior); each case "
-                "is replayed for ndarray + 7 sparse-matrix formats + a COO matrix with repeated coordinates x element types x calculate_eq_probs")
+                "is replayed for ndarray + 7 sparse-matrix formats + a COO matrix with repeated coordinates x element types x calculate_eq_probs; "
+                "plus 5 structured families with closed forms (BuildersLarge.tla) at n = 999, 1000, 1001, 1500 and 5, 12, 40")
     ctx.assumptions += ["sparse *matrix* containers (csr..bsr) as listed by the property; sparse *arrays* are outside its quantifier",
                         "stationarity compared only for strongly connected chains (unique stationary vector)"]
     b = core.build_repo()
@@ -145,7 +420,9 @@ def run(ctx):
                          coverage=True, workers=6))
         cfg = core.write_cfg(os.path.join(d, "e%d.cfg" % i), constants=dict(k, Emit="TRUE"), invariants=["EmitInv"])
         jobs.append(dict(module="Builders", cfg=os.path.basename(cfg), cwd=d, label="emit %s" % sc, workers=1))
-    res = ctx.tlc_parallel(jobs)
+    nsmall = len(jobs)
+    ljobs, lemit = large_jobs(ctx, d)
+    res = ctx.tlc_parallel(jobs + ljobs)
     seen = set()
     for i, sc in enumerate(SCOPES[ctx.tier]):
         cases = []
@@ -177,5 +454,6 @@ def run(ctx):
             for key, detail in bad:
                 ctx.violation({"kind": "replay", "case": c, "detail": detail,
                                "how": "builders.%s vs Builders.tla" % c["builder"]}, key=key)
+    large_replay(ctx, [res[nsmall + i] for i in lemit])
     from props import c12
     c12.mle_container_part(ctx)
